@@ -568,6 +568,8 @@ def assemble(unit_name, repo=None):
                         rx, tail = _parse_regex_directive(r2, c2)
                         p2, kv2 = _kv(tail.split())
                         cur = {'kind': c2, 'regex': rx, 'nth': int(kv2.get('nth', 1)), 'lines': [], 'optional': 'optional' in p2}
+                    elif c2 == 'hoist':
+                        cur = {'kind': 'hoist', 'name': r2.split()[0], 'lines': []}
                     elif c2 == 'mutself':
                         cur = {'kind': 'mutself', 'lines': []}
                     elif c2 == 'uncontinue':
@@ -611,6 +613,21 @@ def assemble(unit_name, repo=None):
                 text = text[:bo] + '{ unimplemented!() }' + '\n' * nl + text[bc + 1:]
                 u.lines.append(Line('#[verifier::external_body]', ('spec', tmpl_rel, i)))
                 log.append(('STUB', 'body replaced by unimplemented!() (external_body)', 0))
+            # D6: item statements local to the fn body are hoisted to module level (text unchanged)
+            for d in directives:
+                if d['kind'] == 'hoist':
+                    mskh = lex.mask(text)
+                    mh = re.search(r'(?:#\s*\[[^\]]*\]\s*)*\bstruct\s+' + re.escape(d['name']) + r'\b', mskh)
+                    if not mh:
+                        raise ExtractError('hoist: local struct %s not found' % d['name'])
+                    bo = mskh.index('{', mh.end())
+                    bc = lex.match_bracket(mskh, bo)
+                    item = text[mh.start():bc + 1]
+                    ln0 = first + text.count('\n', 0, mh.start())
+                    for k, tl in enumerate(item.split('\n')):
+                        u.lines.append(Line(tl, ('repo', relpath, ln0 + k)))
+                    text = text[:mh.start()] + ''.join(c if c == '\n' else ' ' for c in item) + text[bc + 1:]
+                    log.append(('D6', 'local item `struct %s` hoisted to module level' % d['name'], ln0 - first))
             out = _apply_block(text, first, relpath, directives, tmpl_rel, log, False)
             f.start = len(u.lines) + 1
             u.lines.extend(out)
